@@ -3,7 +3,7 @@
 #![allow(unused_imports, dead_code)]
 use super::*;
 use crate::error::CIError;
-use crate::stats::verif_kani::{any_confidence, stub_t_value, stub_z_value};
+use crate::stats::verif_kani::{any_confidence, stub_t_value, stub_z_value, det_t_value, det_z_value};
 use crate::utils::verif_kani::*;
 
 pub(crate) fn any_arith_f64() -> Arithmetic<f64> {
@@ -292,4 +292,33 @@ fn c11_one_shot_ci_invalid_observation_bounded() {
     assert!(matches!(Arithmetic::<f32>::ci(c, &none), Err(CIError::TooFewSamples(0))));
     assert!(matches!(Geometric::<f32>::ci(c, &one), Err(CIError::TooFewSamples(1))));
     assert!(matches!(Harmonic::<f32>::ci(c, &none), Err(CIError::TooFewSamples(0))));
+}
+
+// ---- frame conditions (C01 / C05 / C10: an interval producer is a function of the accumulated state and the confidence; it
+// writes to nothing but its own locals -- no statics, thread-locals or memo tables; see kani/contracts.json)
+#[kani::proof_for_contract(Arithmetic::<f64>::ci_mean)]
+#[kani::stub(crate::stats::t_value, det_t_value)]
+#[kani::stub(crate::stats::z_value, det_z_value)]
+fn c10t_frame_arithmetic_ci_mean_writes_no_hidden_state() {
+    let a = any_arith_f64();
+    let r = a.ci_mean(any_confidence());
+    kani::cover!(r.is_ok());
+    kani::cover!(r.is_err());
+}
+#[kani::proof_for_contract(Harmonic::<f64>::ci_mean)]
+#[kani::stub(crate::stats::t_value, det_t_value)]
+#[kani::stub(crate::stats::z_value, det_z_value)]
+fn c10t_frame_harmonic_ci_mean_writes_no_hidden_state() {
+    let h = Harmonic { recip_space: any_arith_f64() };
+    let r = h.ci_mean(any_confidence());
+    kani::cover!(r.is_ok());
+    kani::cover!(r.is_err());
+}
+#[kani::proof_for_contract(Geometric::<f64>::ci_mean)]
+#[kani::stub(crate::stats::t_value, det_t_value)]
+#[kani::stub(crate::stats::z_value, det_z_value)]
+fn c10t_frame_geometric_ci_mean_writes_no_hidden_state() {
+    let g = Geometric { log_space: any_arith_f64() };
+    let r = g.ci_mean(any_confidence());
+    kani::cover!(r.is_err());
 }
